@@ -401,6 +401,18 @@ pub fn run_history(out: &mut Out, uni: &str, h: &[Op], record: bool) -> HistoryR
                         if routes.iter().find(|r| r.0 == o && r.1 == a).map(|r| r.2.clone()) != Some(stored) { fail(out, "SwapRoute query differs from the last accepted AddSwapRoutes".into()); } }
                     Err(_) => { obs.push("0".into()); if routes.iter().any(|r| r.0 == o && r.1 == a) { fail(out, "an accepted route is not returned by SwapRoute".into()); } }
                 }
+                // the listing reports every stored route exactly once, with the operations it was stored with
+                let listing: Result<Vec<rt::SwapRouteResponse>, _> = w.b.app.wrap().query_wasm_smart(&w.b.router, &rt::QueryMsg::SwapRoutes {});
+                match listing {
+                    Ok(l) => {
+                        let mut got: Vec<Vec<(usize, usize)>> = l.iter().map(|r| r.swap_route.iter().map(|sop| { let rt::SwapOperation::TerraSwap { offer_asset_info, ask_asset_info } = sop;
+                            (w.idx(offer_asset_info) as usize, w.idx(ask_asset_info) as usize) }).collect()).collect();
+                        let mut want: Vec<Vec<(usize, usize)>> = routes.iter().map(|r| r.2.clone()).collect();
+                        got.sort(); want.sort();
+                        if got != want { fail(out, format!("SwapRoutes listing {:?} differs from the accepted routes {:?}", got, want)); }
+                    }
+                    Err(_) => fail(out, "SwapRoutes listing fails".into()),
+                }
             }
         }
         // (d) the registry tells the truth: every entry equals what the child itself reports
